@@ -52,6 +52,21 @@ def normFrom : List Entry → Nat → Nat → Nat × Nat
 def StreamSt.normalise (s : StreamSt) (M P : Nat) : Nat × Nat :=
   if M < s.deleteCount then (M, P) else normFrom (s.segments.drop (M - s.deleteCount)) M P
 
+/-- `hasPart`'s scan BEFORE the F7 repair (gap entries carried no id and never matched) — kept for the
+    witness lemmas about the legacy behaviour. -/
+def hasPartScanLegacy (nextID openParts : Nat) : List Entry → Nat → Nat → Bool
+  | [], m, p => decide (m = nextID ∧ p < openParts)
+  | .gap _ :: rest, m, p => hasPartScanLegacy nextID openParts rest m p
+  | .seg g :: rest, m, p =>
+    if m = g.id then
+      if p ≥ g.parts.length then hasPartScanLegacy nextID openParts rest (m + 1) 0
+      else true
+    else hasPartScanLegacy nextID openParts rest m p
+
+def StreamSt.hasPartLegacy (s : StreamSt) (m p : Nat) : Bool :=
+  if m = s.nextSegmentID then decide (p < s.openPartCount)
+  else hasPartScanLegacy s.nextSegmentID s.openPartCount s.segments m p
+
 /-- the code's expiry threshold `nextSegmentID - uint64(len(segments) - 1)` in uint64 arithmetic -/
 def StreamSt.lowerBound (s : StreamSt) : Nat :=
   (s.nextSegmentID + two64 - ((s.segments.length + two64 - 1) % two64)) % two64
